@@ -157,3 +157,43 @@ Proof.
   - split; [exact Ex.rev_oracle_perm|]. split; [exact Ex.id_oracle_perm|].
     split; [exact Ex.d_wf|]. split; [exact Ex.d_reaches|exact Ex.d_out].
 Qed.
+
+(* The second tie: HandleEpochSecretKeyShare, addEpochSecretKeyShare and computeEpochSecretKey of
+   keyper/epochkg/epochkg.go as translated statement by statement on this run
+   (Generated/EpochKGFuns.v: guard order and error of each guard, the bounds test of
+   PublicKeyShares[share.Sender], the duplicate-sender search loop, the threshold comparison with
+   its int(uint64) cast, every access of SecretShares / SecretKeys with the key expression it
+   uses, what is stored and what is deleted, the (index, share) lists handed to
+   shcrypto.ComputeEpochSecretKey) do what the model does, for every share sequence: after any run
+   the translated maps are the model's maps up to the injective key function Hex of the identity
+   (pending entries projected to (sender, value)), and the error classes of all calls coincide.
+   env_models says what the environment of the translated code means (Hex injective, the two
+   struct fields, the two shcrypto calls); it is satisfiable (Example).  Both maps - and the
+   handler when it reads them - use the one key function KHex; a translated source that keys a
+   map by String() does not pass gen_handle_is_ref. *)
+From Verif Require Import Generated.EpochKGFuns Proofs.EpochKGFuns.
+Theorem C01_translated_bookkeeping_agrees :
+  forall (V EID PK : Type) (E : genv V EID PK) (verify : N -> bytes -> V -> bool)
+         (combine : list (N * V) -> V) (n t : N),
+  env_models V EID PK E verify combine n t -> N.lt t two63 ->
+  (forall sh st, gclass (gen_HandleEpochSecretKeyShare E sh st) = ref_handle E sh st) /\
+  (forall l : list (share V),
+     state_rel V EID PK E n (fst (gen_run V EID PK E l)) (run V verify combine n t l) /\
+     snd (gen_run V EID PK E l) = List.map ocode (outcomes V verify combine n t l)) /\
+  List.Forall (eq KHex) gen_handler_key_reads.
+Proof.
+  intros V EID PK E verify combine n t He Ht. split; [|split].
+  - exact (gen_handle_is_ref E).
+  - intros l. exact (gen_run_agrees V EID PK E verify combine n t l He Ht).
+  - exact handler_key_reads_hex.
+Qed.
+Print Assumptions C01_translated_bookkeeping_agrees.
+
+Example C01_translated_bookkeeping_agrees_nonvacuous :
+  env_models lbl bytes N (model_env lbl verify_l combine_l Ex.n Ex.t) verify_l combine_l Ex.n Ex.t /\
+  N.lt Ex.t two63 /\
+  snd (gen_run lbl bytes N (model_env lbl verify_l combine_l Ex.n Ex.t) Ex.l)
+    = example_codes /\
+  gen_get_opt (g_SecretKeys (fst (gen_run lbl bytes N (model_env lbl verify_l combine_l Ex.n Ex.t) Ex.l))) Ex.A
+    = Some (LKey N0 Ex.A).
+Proof. exact example_translated_run. Qed.
